@@ -412,7 +412,9 @@ func calls(p *pkg, fd *ast.FuncDecl) []string {
 	}
 	ast.Inspect(fd.Body, func(n ast.Node) bool {
 		if ce, ok := n.(*ast.CallExpr); ok {
-			res = append(res, exprStr(p.fset, ce.Fun))
+			if fn := exprStr(p.fset, ce.Fun); !isLogCall(fn) {
+				res = append(res, fn)
+			}
 		}
 		return true
 	})
@@ -447,6 +449,11 @@ func skeleton(p *pkg, fd *ast.FuncDecl) []string {
 			res = append(res, "incdec:"+exprStr(p.fset, x.X))
 		case *ast.CallExpr:
 			fn := exprStr(p.fset, x.Fun)
+			if isLogCall(fn) {
+				// logging is not part of the skeleton: adding or removing a log line must not
+				// disturb an obligation (the arguments are still visited)
+				return true
+			}
 			res = append(res, "call:"+fn)
 			if strings.HasSuffix(fn, "Once.Do") && len(x.Args) == 1 {
 				if fl, ok := x.Args[0].(*ast.FuncLit); ok {
@@ -499,6 +506,20 @@ func skeleton(p *pkg, fd *ast.FuncDecl) []string {
 		return true
 	})
 	return res
+}
+
+// isLogCall recognises calls of the btclog style loggers (x.log.Debugf, log.Tracef, ...).
+func isLogCall(fn string) bool {
+	i := strings.LastIndex(fn, ".")
+	if i < 0 {
+		return false
+	}
+	switch fn[i+1:] {
+	case "Tracef", "Debugf", "Infof", "Warnf", "Errorf", "Criticalf", "Trace", "Debug", "Info", "Warn", "Error", "Critical":
+		recv := fn[:i]
+		return recv == "log" || strings.HasSuffix(recv, ".log")
+	}
+	return false
 }
 
 // typeCasesOf reports, for every call of `callee` inside fd, the type list of
@@ -557,7 +578,9 @@ func events(p *pkg, fd *ast.FuncDecl) []string {
 				res = append(res, "recv:"+exprStr(p.fset, x.X))
 			}
 		case *ast.CallExpr:
-			res = append(res, "call:"+exprStr(p.fset, x.Fun))
+			if fn := exprStr(p.fset, x.Fun); !isLogCall(fn) {
+				res = append(res, "call:"+fn)
+			}
 		}
 		return true
 	})
